@@ -501,12 +501,23 @@ class SymStr(str):
         o.rank = rank
         return o
 
-    def __eq__(self, o): return _mkb(self.rank == o.rank) if isinstance(o, SymStr) else False
-    def __ne__(self, o): return _mkb(self.rank != o.rank) if isinstance(o, SymStr) else True
-    def __lt__(self, o): return _mkb(self.rank < o.rank)
-    def __gt__(self, o): return _mkb(self.rank > o.rank)
-    def __le__(self, o): return _mkb(self.rank <= o.rank)
-    def __ge__(self, o): return _mkb(self.rank >= o.rank)
+    def _vs(self, o, op):
+        """comparison with a CONCRETE string: true for exactly the alphabet strings s with op(s, o)"""
+        import operator
+        f = getattr(operator, op)
+        ks = [k for k, s_ in enumerate(_STRS) if f(s_, str(o))]
+        return _mkb(z3.Or(*[self.rank == k for k in ks])) if ks else False
+
+    def __eq__(self, o):
+        return _mkb(self.rank == o.rank) if isinstance(o, SymStr) else (self._vs(o, "eq") if type(o) is str else False)
+
+    def __ne__(self, o):
+        return _mkb(self.rank != o.rank) if isinstance(o, SymStr) else (self._vs(o, "ne") if type(o) is str else True)
+
+    def __lt__(self, o): return _mkb(self.rank < o.rank) if isinstance(o, SymStr) else self._vs(o, "lt")
+    def __gt__(self, o): return _mkb(self.rank > o.rank) if isinstance(o, SymStr) else self._vs(o, "gt")
+    def __le__(self, o): return _mkb(self.rank <= o.rank) if isinstance(o, SymStr) else self._vs(o, "le")
+    def __ge__(self, o): return _mkb(self.rank >= o.rank) if isinstance(o, SymStr) else self._vs(o, "ge")
     __hash__ = lambda self: 0
 
 
